@@ -20,6 +20,120 @@ ASSUMPTIONS = ["numpy: integer indexing and basic slices are views, fancy indexi
 
 COLS = ["id", "type", "x", "y", "z", "r", "pid"]
 
+# ----------------------------------------------------------------------------- trees with their own column names / extra columns
+# `names=` (an SWCNames table) is a documented option of Tree / DictSWC / from_data_frame, and a tree may carry further per-node columns
+# (the eswc ones, or anything a user adds).  A view, a copy and a detached copy have to work for such a tree exactly as for a default one.
+ALT_NAMES = {"id": ["n", "ID", "node_id", "sample"], "type": ["T", "kind", "structure", "label"], "x": ["X", "px", "pos_x", "x_um"],
+             "y": ["Y", "py", "pos_y", "y_um"], "z": ["Z", "pz", "pos_z", "z_um"], "r": ["radius", "R", "rad", "r_um"],
+             "pid": ["parent", "PID", "parent_id", "father"]}
+EXTRA_COLS = ["level", "mode", "timestamp", "feature_value", "score"]
+
+
+def gen_names(rng, mode=None):
+    """a column-name table: {standard column -> name used by this tree}, only the renamed ones listed"""
+    mode = mode or rng.choice(["all", "some", "topology", "geometry", "one"])
+    if mode == "all":
+        cols = list(COLS)
+    elif mode == "topology":
+        cols = ["id", "pid"]
+    elif mode == "geometry":
+        cols = ["x", "y", "z", "r"]
+    elif mode == "one":
+        cols = [rng.choice(COLS)]
+    else:
+        cols = [c for c in COLS if rng.random() < 0.5] or [rng.choice(COLS)]
+    return {c: rng.choice(ALT_NAMES[c]) for c in cols}
+
+
+def gen_extra(rng, n):
+    return {k: [rng.randint(-9, 99) for _ in range(n)] for k in rng.sample(EXTRA_COLS, rng.randint(1, 2))}
+
+
+def decorate(rng, t, k):
+    """a guaranteed share of the trees of every suite: every third one has its own column names, every fourth one extra columns"""
+    t["names"] = gen_names(rng, ["all", "some", "topology", "geometry", "one"][(k // 3) % 5]) if k % 3 == 1 else None
+    t["extra"] = gen_extra(rng, t["n"]) if k % 4 == 2 or (k % 3 == 1 and rng.random() < 0.5) else None
+    return t
+
+
+def actual(tc, c):
+    """the name under which the tree of this case was given its standard column c"""
+    return (tc.get("names") or {}).get(c, c)
+
+
+def build_tree(tc, strided=False):
+    """the real Tree of a tree case, honouring its column names and extra columns"""
+    from swcgeom.core import Tree
+    from swcgeom.core.swc_utils import SWCNames
+
+    n = tc["n"]
+    if strided:
+        # the same neuron, its float columns being strided views of one (n, 4) matrix (as Branch.from_xyzr and many loaders do)
+        m = np.array([p + [rr] for p, rr in zip(tc["xyz"], tc["r"])], dtype=np.float32)
+        fl = {"x": m[:, 0], "y": m[:, 1], "z": m[:, 2], "r": m[:, 3]}
+    else:
+        xyz = np.array(tc["xyz"], dtype=np.float32).reshape(n, 3)
+        fl = {"x": xyz[:, 0].copy(), "y": xyz[:, 1].copy(), "z": xyz[:, 2].copy(), "r": np.array(tc["r"], dtype=np.float32)}
+    cols = {"id": np.arange(n, dtype=np.int32), "pid": np.array(tc["pids"], dtype=np.int32), "type": np.array(tc["types"], dtype=np.int32), **fl}
+    kw = {actual(tc, c): v for c, v in cols.items()}
+    for k, v in (tc.get("extra") or {}).items():
+        kw[k] = np.array(v, dtype=np.int32)
+    if tc.get("names"):
+        kw["names"] = SWCNames(**tc["names"])
+    return Tree(n, **kw)
+
+
+def column(o, c, via="key"):
+    """standard column c of a tree / standalone table / view, asked the way a user does: through the accessor method, or by the
+    name the object's own `names` table gives the column (for a view: the original ids of its nodes, not its 0..k-1 positions)"""
+    if via == "method":
+        if c in ("id", "pid") and hasattr(o, "origin_id"):
+            return o.origin_id() if c == "id" else o.origin_pid()
+        return getattr(o, c)()
+    return o.get_ndata(getattr(o.names, c))
+
+
+def tree_columns(t):
+    """reference content of a tree case: standard and extra columns as integer lists"""
+    d = {"id": list(range(t["n"])), "pid": list(t["pids"]), "type": list(t["types"]), "x": [int(p[0]) for p in t["xyz"]],
+         "y": [int(p[1]) for p in t["xyz"]], "z": [int(p[2]) for p in t["xyz"]], "r": [int(v) for v in t["r"]]}
+    for k, v in (t.get("extra") or {}).items():
+        d[k] = list(v)
+    return d
+
+
+def observe_detached(d, extra):
+    """what a detached path / branch / compartment reports about itself (its positions 0..k-1 as ids, documented for paths)"""
+    try:
+        o = {"len": len(d), "cols": {c: [int(v) for v in getattr(d, c)()] for c in COLS},
+             "xyzr": np.asarray(d.xyzr()).astype(int).tolist(), "extra": {k: [int(v) for v in d.get_ndata(k)] for k in extra}}
+        if len(d):
+            o["nodes"] = {str(j): [int(getattr(d[j], c)) for c in COLS] for j in (0, -1)}
+        return o
+    except Exception as e:  # noqa: BLE001 - the oracle reports it with the view it came from
+        return {"raises": f"{type(e).__name__}: {str(e)[:120]}"}
+
+
+def expect_detached(cols, idx):
+    """the reference for observe_detached: the owner's current rows idx, renumbered 0..k-1"""
+    d = {c: [v[i] for i in idx] for c, v in cols.items()}
+    k = len(idx)
+    d["id"] = list(range(k)); d["pid"] = list(range(-1, k - 1))
+    o = {"len": k, "cols": {c: d[c] for c in COLS}, "xyzr": [[d["x"][j], d["y"][j], d["z"][j], d["r"][j]] for j in range(k)],
+         "extra": {c: d[c] for c in d if c not in COLS}}
+    if k:
+        o["nodes"] = {str(j): [d[c][j] for c in COLS] for j in (0, -1)}
+    return d, o
+
+
+def diff_detached(got, want):
+    if "raises" in got:
+        return f"cannot report its content: {got['raises']}"
+    for f in ("len", "cols", "xyzr", "extra", "nodes"):
+        if got.get(f) != want.get(f):
+            return f"{f}: {got.get(f)}, the nodes it was taken from have {want.get(f)}"
+    return None
+
 
 def gen_history(rng, n, branches):
     """ops over object 0 (the tree); object / view ids are assigned in creation order"""
@@ -91,6 +205,7 @@ class History(Suite):
                 nn = len(pids)
                 t = {"n": nn, "pids": pids, "types": [1] + [rng.choice([2, 3, 4]) for _ in range(nn - 1)],
                      "xyz": [[float(rng.randint(-30, 30)) for _ in range(3)] for _ in range(nn)], "r": [float(rng.randint(1, 9)) for _ in range(nn)]}
+                decorate(rng, t, k)
                 # branches of the tree as index lists (root/furcation → furcation/tip)
                 kids = {}
                 for i, p in enumerate(pids):
@@ -106,76 +221,89 @@ class History(Suite):
                 # root-to-tip paths of consecutively numbered chains as well (a path over consecutive indices could be served by a slice)
                 if shape in ("chain", "stem", "two") or rng.random() < 0.3:
                     brs.append(list(range(0, rng.randint(1, nn))))
-                out.append({"class": f"{shape}", "tree": t, "ops": gen_history(rng, nn, brs), "strided": rng.random() < 0.5,
-                            "viewkind": rng.choice(["branch", "path", "path"])})
+                ops = gen_history(rng, nn, brs)
+                if (t["names"] or t["extra"]) and not any(o[0] == "dt" for o in ops):
+                    # a tree with its own columns is always seen through a view AND through a detached copy of that view
+                    idx = rng.choice(brs) if brs and rng.random() < 0.7 else [rng.randrange(nn) for _ in range(rng.randint(1, 4))]
+                    nv = sum(1 for o in ops if o[0] == "mv")
+                    nobj = 1 + sum(1 for o in ops if o[0] in ("cp", "dt"))
+                    cc = rng.choice(["x", "y", "z", "r", "type"])
+                    ops += [("mv", 0, list(idx)), ("dt", nv), ("r", nobj, cc), ("nw", 0, rng.choice(idx), cc, rng.randint(-50, 50)), ("r", nobj, cc), ("vr", nv, cc)]
+                cls = shape + ("/names" if t["names"] else "") + ("/extra" if t["extra"] else "")
+                out.append({"class": cls, "tree": t, "ops": ops, "strided": rng.random() < 0.5,
+                            "viewkind": rng.choice(["branch", "path", "path"]), "via": rng.choice(["key", "method"])})
         return out
 
     def run(self, case):
         from swcgeom.core import Branch, Path, Tree
 
-        if case.get("strided"):
-            # the same neuron, its float columns being strided views of one (n, 4) matrix (as Branch.from_xyzr and many loaders do)
-            tc = case["tree"]; n0 = tc["n"]
-            m = np.array([p + [rr] for p, rr in zip(tc["xyz"], tc["r"])], dtype=np.float32)
-            t = Tree(n0, id=np.arange(n0, dtype=np.int32), pid=np.array(tc["pids"], dtype=np.int32), type=np.array(tc["types"], dtype=np.int32),
-                     x=m[:, 0], y=m[:, 1], z=m[:, 2], r=m[:, 3])
-        else:
-            t = gen.make_tree(case["tree"])
+        t = build_tree(case["tree"], strided=bool(case.get("strided")))
+        via = case.get("via", "key")
+        extra = sorted(case["tree"].get("extra") or {})
         View = Path if case.get("viewkind") == "path" else Branch
         objs, views = [t], []
         outs = []
         alias = []
+        dcontent = []
+
+        def nodeget(node, c):
+            return getattr(node, c) if via == "method" else node[getattr(node.names, c)]
         for op in case["ops"]:
             k = op[0]
             try:
                 if k == "r":
-                    outs.append([int(v) for v in (objs[op[1]][op[2]] if isinstance(objs[op[1]], Tree) else objs[op[1]].get_ndata(op[2]))])
+                    o = objs[op[1]]
+                    outs.append([int(v) for v in (o[getattr(o.names, op[2])] if isinstance(o, Tree) and via == "key" else column(o, op[2], via))])
                 elif k == "nr":
                     o = objs[op[1]]
                     node = o[op[2]] if isinstance(o, Tree) else None
                     if node is None:      # DictSWC (detached path) has no __getitem__: read its column directly
-                        arr = o.get_ndata(op[3]); n = len(arr)
+                        arr = column(o, op[3], via); n = len(arr)
                         if not (-n <= op[2] < n):
                             raise IndexError
                         outs.append([int(arr[op[2]])])
                     else:
-                        outs.append([int(node[op[3]])])
+                        outs.append([int(nodeget(node, op[3]))])
                 elif k == "nw":
                     o = objs[op[1]]
                     if isinstance(o, Tree):
-                        o[op[2]][op[3]] = op[4]
+                        if via == "method":
+                            setattr(o[op[2]], op[3], op[4])
+                        else:
+                            o[op[2]][getattr(o.names, op[3])] = op[4]
                     else:
-                        arr = o.get_ndata(op[3]); n = len(arr)
+                        arr = column(o, op[3], via); n = len(arr)
                         if not (-n <= op[2] < n):
                             raise IndexError
                         arr[op[2]] = op[4]
                     outs.append("ok")
                 elif k == "ow":
-                    objs[op[1]].get_ndata(op[3])[op[2]] = op[4]; outs.append("ok")
+                    column(objs[op[1]], op[3], via)[op[2]] = op[4]; outs.append("ok")
                 elif k == "mv":
                     views.append(View(objs[op[1]], np.array(op[2], dtype=np.int32))); outs.append(f"view{len(views) - 1}")
                 elif k == "vr":
-                    outs.append([int(v) for v in views[op[1]].get_ndata(op[2])])
+                    outs.append([int(v) for v in column(views[op[1]], op[2], via)])
                 elif k == "vn":
-                    outs.append([int(views[op[1]][op[2]][op[3]])])
+                    outs.append([int(nodeget(views[op[1]][op[2]], op[3]))])
                 elif k == "cp":
                     c = objs[op[1]].copy()
-                    alias.append(any(np.shares_memory(c.get_ndata(kk), objs[op[1]].get_ndata(kk)) for kk in COLS))
+                    alias.append(any(np.shares_memory(a, b) for a in c.values() for b in objs[op[1]].values()))
                     objs.append(c); outs.append(f"obj{len(objs) - 1}")
                 elif k == "dt":
                     d = views[op[1]].detach()
                     own = views[op[1]].attach
-                    alias.append(any(np.shares_memory(d.attach.get_ndata(kk), own.get_ndata(kk)) for kk in COLS))
+                    alias.append(any(np.shares_memory(a, b) for a in d.attach.values() for b in own.values()))
+                    dcontent.append(observe_detached(d, extra))
                     objs.append(d.attach); outs.append(f"obj{len(objs) - 1}")
                 elif k == "sg":
-                    outs.append([[int(v) for v in s.get_ndata("id")] for s in objs[op[1]].get_segments()])
+                    outs.append([[int(v) for v in column(s, "id", via)] for s in objs[op[1]].get_segments()])
                 elif k == "vs":
                     vw = views[op[1]]
                     if not hasattr(vw, "get_segments"):      # a plain Path has no segments API: same answer from its node pairs
-                        ids_ = [int(v) for v in vw.get_ndata("id")]
+                        ids_ = [int(v) for v in column(vw, "id", via)]
                         outs.append([[a, b] for a, b in zip(ids_, ids_[1:])])
                     else:
-                        outs.append([[int(v) for v in s.get_ndata("id")] for s in vw.get_segments()])
+                        outs.append([[int(v) for v in column(s, "id", via)] for s in vw.get_segments()])
                 elif k == "sl":
                     o = objs[op[1]]
                     if isinstance(o, Tree):
@@ -185,7 +313,7 @@ class History(Suite):
                         outs.append("skip")
             except IndexError:
                 outs.append("E")
-        return {"outs": outs, "alias": alias}
+        return {"outs": outs, "alias": alias, "dcontent": dcontent}
 
     def lines(self, case, res):
         if "exc" in res:
@@ -223,10 +351,10 @@ class History(Suite):
             return [(key, f"{res['exc']}: {res.get('msg')} (ops={case['ops']})")]
         t = case["tree"]
         n = t["n"]
-        objs = [{"id": list(range(n)), "pid": list(t["pids"]), "type": list(t["types"]), "x": [int(p[0]) for p in t["xyz"]],
-                 "y": [int(p[1]) for p in t["xyz"]], "z": [int(p[2]) for p in t["xyz"]], "r": [int(v) for v in t["r"]]}]
+        objs = [tree_columns(t)]
         views = []
         out = []
+        ndt = 0
         if any(res["alias"]):
             out.append(("copy-shares-storage", "a copy / detached object shares memory with the original"))
         for op, got in zip(case["ops"], res["outs"]):
@@ -260,9 +388,14 @@ class History(Suite):
                     objs.append({c: list(v) for c, v in objs[op[1]].items()}); want = f"obj{len(objs) - 1}"
                 elif k == "dt":
                     o, idx = views[op[1]]
-                    d = {c: [v[i] for i in idx] for c, v in objs[o].items()}
-                    d["id"] = list(range(len(idx))); d["pid"] = list(range(-1, len(idx) - 1))
+                    d, wantc = expect_detached(objs[o], idx)
                     objs.append(d); want = f"obj{len(objs) - 1}"
+                    if ndt < len(res.get("dcontent", [])):
+                        bad = diff_detached(res["dcontent"][ndt], wantc)
+                        if bad:
+                            out.append(("detach", f"the detached copy of a {case.get('viewkind')} over nodes {idx} of a tree with column names "
+                                                  f"{t.get('names') or 'default'} and extra columns {sorted(t.get('extra') or {})}: {bad}"))
+                    ndt += 1
                 elif k == "sg":
                     o = objs[op[1]]; want = [[o["pid"][i], o["id"][i]] for i in range(1, len(o["id"]))]
                 elif k == "vs":
@@ -304,14 +437,15 @@ class Collections(Suite):
                 pts = list(pts); rng.shuffle(pts)
                 t = {"n": nn, "pids": pids, "types": [1] + [rng.choice([2, 3, 4]) for _ in range(nn - 1)],
                      "xyz": [list(q) for q in pts], "r": [float(rng.randint(1, 9)) for _ in range(nn)]}
-                for how in ("tree", "branch", "gathered", "extended", "detached"):
-                    out.append({"class": how, "tree": t, "how": how, "pick": rng.random()})
+                decorate(rng, t, k)
+                for how in ("tree", "branch", "gathered", "extended", "detached", "detached-branch"):
+                    out.append({"class": how + ("/names" if t["names"] else ""), "tree": t, "how": how, "pick": rng.random()})
         return out
 
     def run(self, case):
         from swcgeom.core.compartment import Segments
 
-        t = gen.make_tree(case["tree"])
+        t = build_tree(case["tree"])
         brs = t.get_branches()
         how = case["how"]
         if how == "tree":
@@ -328,9 +462,11 @@ class Collections(Suite):
             segs = brs[0].get_segments()
             for b in brs[1:]:
                 segs.extend(b.get_segments())
+        elif how == "detached-branch":       # detached copies of the segments of the branches
+            segs = Segments(s.detach() for b in brs for s in b.get_segments())
         else:
             segs = Segments(s.detach() for s in t.get_segments())
-        members = [[int(v) for v in s.get_ndata("id")] for s in segs]
+        members = [[int(v) for v in column(s, "id")] for s in segs]
         res = {"members": members, "n": len(segs)}
         # node handles navigate the tree they belong to: parent() / children()
         res["parents"] = [(-1 if t.node(i).parent() is None else int(t.node(i).parent().id)) for i in range(len(t))]
@@ -362,7 +498,7 @@ class Collections(Suite):
                 out.append(("node-children", f"node {k}.children() are {res['children'][k]}, the rows whose parent is {k} are {want[k]} (pids={pids})"))
         if res["n"] == 0:
             return out
-        detached = case["how"] == "detached"
+        detached = case["how"] in ("detached", "detached-branch")
         if detached:
             # a detached copy numbers its two nodes 0, 1 (documented for paths): identify the member by its positions
             at = {tuple(q): i for i, q in enumerate(t["xyz"])}
@@ -373,7 +509,7 @@ class Collections(Suite):
         for a, b in res["members"]:
             if pids[b] != a:
                 return [("segment-not-an-edge", f"{case['how']}: member ({a}, {b}) is not a (parent, child) pair of pids={pids}")]
-        if case["how"] in ("tree", "detached", "gathered", "extended"):
+        if case["how"] in ("tree", "detached", "detached-branch", "gathered", "extended"):
             want = sorted((pids[i], i) for i in range(t["n"]) if pids[i] >= 0)
             if sorted(map(tuple, res["members"])) != want:
                 out.append(("segments-not-all-edges", f"{case['how']}: members {res['members'][:6]}… are not exactly the edges of pids={pids}"))
@@ -408,18 +544,22 @@ class Accessors(Suite):
         k = 0
         for n in [1, 2, 3, 5, 8, 13] + ([40] if tier == "thorough" or widen else []):
             for _ in range(3):
-                pids = gen.renumber_root0(rng, gen.parents_sorted(rng, n, gen.pick_shape(rng, k))); k += 1
+                pids = gen.renumber_root0(rng, gen.parents_sorted(rng, n, gen.pick_shape(rng, k)))
                 nn = len(pids)
                 t = {"n": nn, "pids": pids, "types": [1] + [rng.choice([2, 3, 4]) for _ in range(nn - 1)],
                      "xyz": [[float(rng.randint(-30, 30)) for _ in range(3)] for _ in range(nn)], "r": [float(rng.randint(1, 9)) for _ in range(nn)]}
+                decorate(rng, t, k); k += 1
                 idx = [rng.randrange(nn) for _ in range(rng.randint(1, 5))]
-                out.append({"class": "views", "tree": t, "idx": idx, "cols": rng.choice([3, 4]), "batch": rng.randint(1, 3)})
+                out.append({"class": "views" + ("/names" if t["names"] else "") + ("/extra" if t["extra"] else ""), "tree": t, "idx": idx,
+                            "cols": rng.choice([3, 4]), "batch": rng.randint(1, 3), "seg": rng.random(), "wval": rng.randint(40, 90)})
         return out
 
     def run(self, case):
         from swcgeom.core import Branch, Path
 
-        t = gen.make_tree(case["tree"])
+        tc = case["tree"]
+        t = build_tree(tc)
+        extra = sorted(tc.get("extra") or {})
         idx = np.array(case["idx"], dtype=np.int32)
         res = {}
         with warnings.catch_warnings():
@@ -428,12 +568,39 @@ class Accessors(Suite):
                 v = V(t, idx)
                 res[name] = {"iter_ids": [int(nd.id) for nd in v], "iter_x": [float(nd.x) for nd in v], "len": len(v),
                              "get_node": [int(v.get_node(j).id) for j in range(len(v))], "origin_id": [int(q) for q in v.origin_id()],
-                             "origin_pid": [int(q) for q in v.origin_pid()], "keys": sorted(str(q) for q in v.keys())}
+                             "origin_pid": [int(q) for q in v.origin_pid()], "keys": sorted(str(q) for q in v.keys()),
+                             "ends": [[int(v.node(j).id), float(v.node(j).x)] for j in (0, -1)]}
             nd = t.node(int(idx[0]))
             d = nd.detach()
             res["node"] = {"xyz": [float(q) for q in nd.xyz()], "xyzr": [float(q) for q in nd.xyzr()], "keys": sorted(str(q) for q in nd.keys()),
-                           "detached": {c: float(np.asarray(d.get_ndata(c) if hasattr(d, "get_ndata") else d[c]).reshape(-1)[0]) for c in ("x", "y", "z", "r", "type")},
+                           "detached": {c: float(np.asarray(getattr(d, c)).reshape(-1)[0]) for c in ("x", "y", "z", "r", "type")},
                            "dist0": float(nd.distance(t.node(0)))}
+            # detached copies of every kind of window: a path, a branch, a segment of the tree, a segment of a branch (if the tree has an edge)
+            kinds = [("path", Path(t, idx), [int(i) for i in idx]), ("branch", Branch(t, idx), [int(i) for i in idx])]
+            tsegs = t.get_segments()
+            if len(tsegs):
+                sg = tsegs[int(case.get("seg", 0) * len(tsegs))]
+                kinds.append(("tree segment", sg, [int(i) for i in sg.idx]))
+            brs = t.get_branches()
+            if brs:
+                b = brs[int(case.get("seg", 0) * len(brs))]
+                bs = b.get_segments()
+                if len(bs):
+                    sg = bs[int(case.get("seg", 0) * len(bs))]
+                    kinds.append(("branch segment", sg, [int(i) for i in np.asarray(b.idx)[np.asarray(sg.idx)]]))
+            det = []
+            for kind, v, rows in kinds:
+                d = v.detach()
+                before = observe_detached(d, extra)
+                # … and it is independent: a write through a node handle of the tree reaches the window, not the detached copy
+                old = float(t[rows[-1]].x)
+                t[rows[-1]].x = case.get("wval", 77)
+                seen = float(column(v, "x")[-1])
+                after = observe_detached(d, extra)
+                t[rows[-1]].x = old
+                det.append({"kind": kind, "rows": rows, "type": type(d).__name__, "before": before, "after": after, "seen": seen,
+                            "shares": any(np.shares_memory(a, c) for a in d.attach.values() for c in t.values())})
+            res["detached"] = det
             m = len(case["idx"]) + 2      # (from_xyzr_batch insists on at least three points per branch)
             arr = np.array([[float(i + 1), float(2 * i), float(-i), 0.5 + i][: case["cols"]] for i in range(m)], dtype=np.float32)
             b = Branch.from_xyzr(arr)
@@ -455,8 +622,10 @@ class Accessors(Suite):
             if v["iter_ids"] != idx or v["get_node"] != idx or v["origin_id"] != idx or v["len"] != len(idx) or v["origin_pid"] != want_pid \
                     or v["iter_x"] != [float(t["xyz"][i][0]) for i in idx]:
                 out.append(("view-iteration", f"a {name} over nodes {idx}: iteration gives {v['iter_ids']}, get_node {v['get_node']}, origin ids {v['origin_id']} / parents {v['origin_pid']} (expected {want_pid})"))
-            if v["keys"] != sorted(["id", "type", "x", "y", "z", "r", "pid"]):
+            if v["keys"] != sorted([actual(t, c) for c in COLS] + list(t.get("extra") or {})):
                 out.append(("view-keys", f"keys of a {name}: {v['keys']}"))
+            if "ends" in v and v["ends"] != [[idx[j], float(t["xyz"][idx[j]][0])] for j in (0, -1)]:
+                out.append(("view-node-read", f"a {name} over nodes {idx}: node(0) / node(-1) report (id, x) = {v['ends']}"))
         i0 = idx[0]
         nd = res["node"]
         if nd["xyz"] != [float(c) for c in t["xyz"][i0]] or nd["xyzr"] != [float(c) for c in t["xyz"][i0]] + [float(t["r"][i0])]:
@@ -466,6 +635,19 @@ class Accessors(Suite):
             out.append(("copy-content", f"detached copy of node {i0} holds {nd['detached']}, the node has {want_d}"))
         if abs(nd["dist0"] - math.dist(t["xyz"][i0], t["xyz"][0])) > 1e-4:
             out.append(("node-read", f"distance of node {i0} to node 0: {nd['dist0']}"))
+        cols0 = tree_columns(t)
+        for dd in res.get("detached", []):
+            _, want = expect_detached(cols0, dd["rows"])
+            bad = diff_detached(dd["before"], want)
+            what = f"the detached copy of a {dd['kind']} over nodes {dd['rows']} of a tree with column names {t.get('names') or 'default'} and extra columns {sorted(t.get('extra') or {})}"
+            if bad:
+                out.append(("detach", f"{what}: {bad}")); break
+            if dd["shares"]:
+                out.append(("copy-shares-storage", f"{what} shares memory with the tree")); break
+            if dd["seen"] != float(case.get("wval", 77)):
+                out.append(("node-write", f"x of node {dd['rows'][-1]} written through the tree's handle; the {dd['kind']} over {dd['rows']} still reports {dd['seen']}")); break
+            if dd["after"] != dd["before"]:
+                out.append(("stale-or-leaked-write", f"{what} changed when the tree was written: {diff_detached(dd['after'], want)}")); break
         fx = res["from_xyzr"]
         m = len(idx) + 2
         rows = [[float(i + 1), float(2 * i), float(-i), (0.5 + i) if case["cols"] == 4 else 1.0] for i in range(m)]
@@ -483,7 +665,148 @@ class Accessors(Suite):
         return len(case["idx"]) >= 2
 
 
-SUITES = [History(), Collections(), Accessors()]
+ROUTES = ["node(i)", "node(i-n)", "tree[i]", "tree[i-n]", "node(np.int32(i))", "node(np.int64(i-n))", "tree[np.int64(i-n)]", "iteration", "tree[:][i]",
+          "tree[::-1][n-1-i]", "parent-of-child", "child-of-parent"]
+
+
+class Handles(Suite):
+    """every public way of getting hold of a node handle — `tree[i]`, `tree.node(i)`, with positions counted from the end (numpy's
+    convention, which `Path.straight_line_distance` itself uses with `node(-1)`), numpy integer types, slices, iteration, and the handles
+    returned by parent() / children() — gives a window onto the same row: same attributes, same parent, same children, a branch through
+    that node; a write through it lands in that row of the owner, and its detached copy has that row's content and is independent"""
+    name = "c09.handles"
+
+    def cases(self, rng, tier, widen):
+        out = []
+        big = tier == "thorough" or widen
+        k = 0
+        for n in [1, 2, 3, 4, 6, 9, 13] + ([30, 80] if big else []):
+            for _ in range(3 if not big else 8):
+                shape = gen.pick_shape(rng, k)
+                pids = gen.renumber_root0(rng, gen.parents_sorted(rng, n, shape))
+                nn = len(pids)
+                t = {"n": nn, "pids": pids, "types": [1] + [rng.choice([2, 3, 4]) for _ in range(nn - 1)],
+                     "xyz": [[float(rng.randint(-30, 30)) for _ in range(3)] for _ in range(nn)], "r": [float(rng.randint(1, 9)) for _ in range(nn)]}
+                decorate(rng, t, k); k += 1
+                out.append({"class": shape + ("/names" if t["names"] else ""), "tree": t, "wcol": rng.choice(["x", "y", "z", "r", "type"]),
+                            "wbase": rng.randint(100, 200)})
+        return out
+
+    def run(self, case):
+        tc = case["tree"]
+        t = build_tree(tc)
+        n = len(t)
+        pids = tc["pids"]
+        kid = {}
+        for j, p in enumerate(pids):
+            kid.setdefault(p, j)
+
+        def handle(route, i):
+            if route == "node(i)":
+                return t.node(i)
+            if route == "node(i-n)":
+                return t.node(i - n)
+            if route == "tree[i]":
+                return t[i]
+            if route == "tree[i-n]":
+                return t[i - n]
+            if route == "node(np.int32(i))":
+                return t.node(np.int32(i))
+            if route == "node(np.int64(i-n))":
+                return t.node(np.int64(i - n))
+            if route == "tree[np.int64(i-n)]":
+                return t[np.int64(i - n)]
+            if route == "iteration":
+                return list(t)[i]
+            if route == "tree[:][i]":
+                return t[:][i]
+            if route == "tree[::-1][n-1-i]":
+                return t[::-1][n - 1 - i]
+            if route == "parent-of-child":
+                return t.node(kid[i]).parent() if i in kid else None
+            if route == "child-of-parent":
+                if pids[i] < 0:
+                    return None
+                return next((c for c in t.node(pids[i]).children() if int(c.id) == i), "missing")
+            raise ValueError(route)
+
+        res = {"routes": {}}
+        for ri, route in enumerate(ROUTES):
+            rows = []
+            for i in range(n):
+                h = handle(route, i)
+                if h is None:
+                    rows.append(None); continue
+                if isinstance(h, str):
+                    rows.append({"missing": True}); continue
+                par = h.parent()
+                o = {"attrs": [int(getattr(h, c)) for c in COLS], "parent": -1 if par is None else int(par.id),
+                     "children": sorted(int(c.id) for c in h.children()), "xyzr": [int(v) for v in h.xyzr()]}
+                try:
+                    o["branch"] = [int(v) for v in h.branch().origin_id()]
+                except Exception as e:  # noqa: BLE001
+                    o["branch"] = f"{type(e).__name__}: {str(e)[:80]}"
+                # a write through this handle: seen in the owner's column and through a handle made the plain way; then undone
+                c = case["wcol"]
+                old = int(getattr(h, c)); val = case["wbase"] + ri
+                setattr(h, c, val)
+                o["write"] = [int(column(t, c)[i]), int(getattr(t[i], c)), [int(v) for j, v in enumerate(column(t, c)) if j != i]]
+                # its detached copy: that row's content, untouched by a later write to the tree
+                d = h.detach()
+                setattr(h, c, old)
+                o["detached"] = [int(getattr(d, cc)) for cc in COLS]
+                o["restored"] = int(column(t, c)[i])
+                rows.append(o)
+            res["routes"][route] = rows
+        return res
+
+    def oracle(self, case, res):
+        t = case["tree"]
+        if "exc" in res:
+            return [("node-handle-raises", f"{res['exc']}: {res.get('msg')} (pids={t['pids']}, names={t.get('names')})")]
+        cols = tree_columns(t)
+        n, pids = t["n"], t["pids"]
+        c = case["wcol"]
+        out = []
+        for ri, route in enumerate(ROUTES):
+            for i, o in enumerate(res["routes"][route]):
+                if o is None:
+                    continue
+                who = f"the handle of row {i} obtained as {route} (n={n}, pids={pids})"
+                if o.get("missing"):
+                    out.append(("node-children", f"{who}: node {pids[i]}.children() does not contain node {i}")); break
+                want = [cols[cc][i] for cc in COLS]
+                if o["attrs"] != want or o["xyzr"] != [cols[cc][i] for cc in ("x", "y", "z", "r")]:
+                    out.append(("node-read", f"{who} reports {dict(zip(COLS, o['attrs']))}, row {i} holds {dict(zip(COLS, want))}")); break
+                if o["parent"] != pids[i]:
+                    out.append(("node-parent", f"{who}: parent() is node {o['parent']}, the parent column says {pids[i]}")); break
+                wk = sorted(j for j in range(n) if pids[j] == i)
+                if o["children"] != wk:
+                    out.append(("node-children", f"{who}: children() are {o['children']}, the rows whose parent is {i} are {wk}")); break
+                b = o["branch"]
+                if isinstance(b, str) or i not in b or any(pids[y] != x for x, y in zip(b, b[1:])) or \
+                        any(sum(1 for j in range(n) if pids[j] == x) != 1 for x in b[1:-1]):
+                    out.append(("node-branch", f"{who}: branch() gives {b}, which is not an unbranched run of (parent, child) pairs through node {i}")); break
+                val = case["wbase"] + ri
+                others = [v for j, v in enumerate(cols[c]) if j != i]
+                if o["write"] != [val, val, others] or o["restored"] != cols[c][i]:
+                    out.append(("node-write", f"{who}: {c} = {val} written through it; the owner's column holds {o['write'][0]} there, tree[{i}].{c} is {o['write'][1]}, "
+                                              f"the other rows {o['write'][2]} (were {others})")); break
+                # (a detached node is a one-node table of its own: its id / pid are not the tree's and are not compared)
+                wd = list(want); wd[COLS.index(c)] = val
+                keep = [j for j, cc in enumerate(COLS) if cc not in ("id", "pid")]
+                if [o["detached"][j] for j in keep] != [wd[j] for j in keep]:
+                    out.append(("copy-content", f"{who}: its detached copy, read after the tree was written again, holds {dict(zip(COLS, o['detached']))}, "
+                                                f"expected {dict(zip(COLS, wd))}")); break
+            if out:
+                break
+        return out[:3]
+
+    def nontrivial(self, case, res):
+        return case["tree"]["n"] >= 3
+
+
+SUITES = [History(), Collections(), Accessors(), Handles()]
 TECHNIQUE = ("Lean 4 theorems about a heap model of owners, arrays and index-holding views (a view's read is the owner's current content at its indices after any "
              "history; a tree-node write lands in the owner and is seen by every view; copy / detach allocate fresh arrays, so for every later interleaving of "
              "writes neither side sees the other's; segment construction) + differential correspondence on random operation histories + np.shares_memory oracle")
